@@ -121,23 +121,40 @@ def run_jobs(prop, mspec, tr):
         kw["deadline"] = deadline
         tasks.append((modname, fname, kw))
     results = []
-    expand_n = mspec.get("expand_paths", 120)
-    chunk = mspec.get("chunk", 6)
+    expand_n = mspec.get("expand_paths", 60)
+    chunk = mspec.get("chunk", 4)
+    slice_s = mspec.get("slice_s", 12)
+    from collections import deque
+    queue = deque((m, f, dict(kw, bfs=True, max_paths=expand_n)) for m, f, kw in tasks)
+    base = {id(t): t for t in tasks}
+    inflight = []
     with mp.get_context("fork").Pool(16, initializer=_worker_init, initargs=(prep["mir"], REPO)) as pool:
-        # phase 1: breadth-first expansion of every job's path tree (one task per job)
-        phase1 = [(m, f, dict(kw, bfs=True, max_paths=expand_n)) for m, f, kw in tasks]
-        firsts = pool.map(_worker_run, phase1, chunksize=1)
-        # phase 2: the unexplored sub-trees are handed out in small chunks (dynamic balancing)
-        phase2 = []
-        for (m, f, kw), d in zip(tasks, firsts):
-            fr = d.get("extra", {}).pop("frontier", None) or []
-            results.append(d)
-            for i in range(0, len(fr), chunk):
-                phase2.append((m, f, dict(kw, initial=fr[i:i + chunk])))
-        import random
-        random.Random(seed()).shuffle(phase2)
-        for d in pool.imap_unordered(_worker_run, phase2, chunksize=1):
-            results.append(d)
+        # Work list scheduling: every task explores for at most `slice_s` seconds and returns the
+        # sub-trees it did not reach; those are re-queued in small chunks (dynamic balancing).
+        while queue or inflight:
+            while queue and len(inflight) < 16:
+                t = queue.popleft()
+                inflight.append((t, pool.apply_async(_worker_run, (t,))))
+            still = []
+            progressed = False
+            for t, ar in inflight:
+                if not ar.ready():
+                    still.append((t, ar))
+                    continue
+                progressed = True
+                d = ar.get()
+                fr = d.get("extra", {}).pop("frontier", None) or []
+                results.append(d)
+                m, f, kw = t
+                kw2 = {k: v for k, v in kw.items() if k not in ("bfs", "max_paths", "initial")}
+                if time.time() < deadline:
+                    for i in range(0, len(fr), chunk):
+                        queue.append((m, f, dict(kw2, initial=fr[i:i + chunk], slice_s=slice_s)))
+                elif fr:
+                    d["incomplete"].append("time budget exhausted with %d unexplored sub-trees" % len(fr))
+            inflight = still
+            if not progressed:
+                time.sleep(0.05)
     results = merge_by_name(results)
     # ---- aggregate -----------------------------------------------------------------------------
     funcs = set()
